@@ -663,6 +663,70 @@ Proof.
   intros Hf Hc. exists (flat_nav e t). split; [apply nav_flat; assumption|]. apply flat_nav_spec. exact Hf.
 Qed.
 
+(* ------------------------------------------------------------------ inside one occurrence of a table *)
+
+Lemma all_plain_flat : forall ks earlier, all_plain ks = true -> flat_kids earlier ks = true.
+Proof.
+  induction ks as [|x xs IH]; intros earlier H; [reflexivity|].
+  cbn [all_plain] in H. apply andb_prop in H as [Hx Hxs]. cbn [flat_kids]. rewrite (IH _ Hxs), andb_true_r.
+  destruct (plain_elem_inv x Hx) as (i & sz & ->). reflexivity.
+Qed.
+
+Lemma pprops_find e : forall gks off base j y, all_plain gks = true -> find_kid gks j = Some y ->
+  exists oj, kstart e gks base j = Some (base + oj)
+    /\ find_prop (KName j) (pprops gks off) = Some (LAtom (off + oj) (extent e y)).
+Proof.
+  induction gks as [|x xs IH]; intros off base j y H Hfind; [discriminate|].
+  cbn [all_plain] in H. apply andb_prop in H as [Hx Hxs].
+  destruct (plain_elem_inv x Hx) as (i & sz & ->).
+  cbn [find_kid item_id] in Hfind. cbn [kstart pprops find_prop item_id atom_sz]. rewrite key_eqb_name, (N.eqb_sym j i).
+  destruct (N.eqb i j).
+  - inversion Hfind; subst. exists 0. rewrite !Nat.add_0_r. split; [reflexivity|].
+    unfold extent. cbn [item_oc count ext1]. rewrite Nat.mul_1_l. reflexivity.
+  - destruct (IH (off + sz) (base + extent e (Elem i sz Once None)) j y Hxs Hfind) as (oj & Hk & Hp).
+    exists (sz + oj). rewrite Hk, Hp. unfold extent. cbn [item_oc count ext1].
+    split; f_equal; [lia|f_equal; lia].
+Qed.
+
+Lemma layout_flat_occurrence {B} (dcount : list B -> nat) t e r :
+  flat_odo t = true -> counters_hold dcount e t r ->
+  exists v, nav_of dcount r (build t) = Ok v
+    /\ forall k x, find_kid (item_kids t) k = Some x -> is_table x = true ->
+       exists o vk, kid_start e (item_kids t) k = Some o /\ nav_name v (KName k) = Ok vk
+         /\ forall i, i < count e (item_oc x) ->
+            exists vi, nav_index dcount r vk i = Ok vi
+              /\ match x with
+                 | Elem n sz _ _ => exists vj, nav_name vi (KName n) = Ok vj /\ n_loc vj = LAtom (o + i * sz) sz
+                 | Group _ _ _ gks =>
+                     forall j y, find_kid gks j = Some y ->
+                       exists oj vj, kid_start e gks j = Some oj /\ nav_name vi (KName j) = Ok vj
+                         /\ n_loc vj = LAtom (o + i * ext1 e x + oj) (extent e y)
+                 end.
+Proof.
+  intros Hf Hc. exists (flat_nav e t). split; [apply nav_flat; assumption|].
+  destruct (flat_odo_inv t Hf) as (i0 & rd & kids & -> & Hk & Hnd).
+  cbn [item_kids]. intros k x Hfind Ht.
+  destruct (fprops_find e kids [] 0 k x Hk Hfind) as (o & earlier' & Hst & Hfp & Hx).
+  exists o, (mknav (floc e x o) ((KName i0, LObj 0 (fsize e kids) (fprops e kids 0)) :: fanch e kids 0 [])).
+  split; [rewrite (kid_start_kstart e kids k Hk); exact Hst|].
+  split; [cbn [flat_nav]; apply nav_name_floc; exact Hfp|].
+  pose proof (is_table_not_plain x Ht) as Hnp.
+  destruct (flat_kid_shape earlier' x Hx Hnp) as [Hshape _].
+  intros i Hi. unfold nav_index, floc. rewrite Hnp. cbn [n_loc].
+  destruct (count e (item_oc x) <=? i) eqn:E; [apply Nat.leb_le in E; lia|].
+  rewrite (walk_items dcount r x _ [] Hshape). eexists. split; [reflexivity|].
+  destruct x as [n sz oc rd'|g oc rd' gks].
+  - cbn [occ_loc occ_sz occ_anch]. eexists. split.
+    + unfold nav_name. cbn [n_loc n_an find_prop]. rewrite key_eqb_name, N.eqb_refl. reflexivity.
+    + cbn [n_loc]. f_equal. lia.
+  - cbn [table_shape] in Hshape. intros j y Hj.
+    destruct (pprops_find e gks (o + occ_sz (Group g oc rd' gks) * i) 0 j y Hshape Hj) as (oj & Hkj & Hpj).
+    exists oj. eexists. split; [rewrite (kid_start_kstart e gks j (all_plain_flat gks [] Hshape)); exact Hkj|].
+    split.
+    + unfold nav_name. cbn [occ_loc n_loc n_an]. rewrite Hpj. reflexivity.
+    + cbn [n_loc]. f_equal. rewrite (occ_sz_ext e earlier' _ Hx). lia.
+Qed.
+
 (* ------------------------------------------------------------------ Part 3: frame lemma *)
 
 Lemma slice_app {T} (r m : list T) a b : b <= length r -> slice (r ++ m) a b = slice r a b.
